@@ -405,6 +405,10 @@ func (s *idxSolver) factsFrom(all []prog.Fact) {
 					// x != k together with x >= k gives x >= k+1 (used by the prover)
 					if cy {
 						s.add(f, idxNode{'n', x}, zeroNode, ky) // marker: x != ky
+						// a % m != 0 implies a != 0
+						if rem, ok := x.(*ssa.BinOp); ok && rem.Op == token.REM && ky == 0 {
+							s.add(f, idxNode{'n', rem.X}, zeroNode, 0)
+						}
 					}
 				}
 			} else if isStringType(x.Type()) {
@@ -830,8 +834,15 @@ func (c *Ctx) PanicIDX(rule string, entry ...string) []report.Obligation {
 						}
 					}
 				}
+				idiom := false
+				if len(fails) > 0 && kind == "index" && indexMapIdiom(x, lo, b) {
+					fails, idiom = nil, true
+				}
 				if len(fails) == 0 {
 					o.Status, o.Why = report.Discharged, "bounds implied by the dominating comparisons and definitions (difference constraints)"
+					if idiom {
+						o.Why = "position map idiom: the index was stored as len(seq)-1 by the only update of a local map, and seq only grows"
+					}
 					if joined {
 						o.Why = "bounds implied on every incoming edge of the block (join over predecessors)"
 					}
@@ -845,4 +856,193 @@ func (c *Ctx) PanicIDX(rule string, entry ...string) []report.Obligation {
 	}
 	c.Stats[rule+".sites"] = sites
 	return out
+}
+
+// indexMapIdiom recognises `if j, ok := pos[k]; ok { seq[j] = … } else { seq = append(seq, e); pos[k] = len(seq)-1 }`:
+// a local map that only ever stores positions of a slice that only ever grows.
+//
+// Conditions, all read off the SSA form:
+//  1. the index is the value of a comma-ok lookup in map m and the access is dominated by ok == true;
+//  2. m is a local MakeMap used only by lookups and map updates (it does not escape);
+//  3. every update of m stores len(A)-1 where A = append(H, one or more elements) is the single append of the
+//     slice's "family" (the values connected to the indexed slice by phis and by A's first operand), whose only
+//     other member is one initial value created in the same block as m (so a fresh slice never meets an old map);
+//  4. after the update, in the same iteration, every phi edge of the family carries A (the grown slice is not
+//     dropped), and the indexed access is not reachable from the update within the iteration;
+// then every stored position p satisfies 0 <= p <= len(x)-1 for every family value x read later.
+func indexMapIdiom(x, idx ssa.Value, at *ssa.BasicBlock) bool {
+	ex, ok := idx.(*ssa.Extract)
+	if !ok || ex.Index != 0 {
+		return false
+	}
+	lk, ok := ex.Tuple.(*ssa.Lookup)
+	if !ok || !lk.CommaOk {
+		return false
+	}
+	okFact := false
+	for _, f := range prog.DominatingFacts(at) {
+		if e2, isE := f.Cond.(*ssa.Extract); isE && e2.Tuple == ssa.Value(lk) && e2.Index == 1 && f.Val {
+			okFact = true
+		}
+	}
+	if !okFact {
+		return false
+	}
+	m, ok := lk.X.(*ssa.MakeMap)
+	if !ok {
+		return false
+	}
+	var updates []*ssa.MapUpdate
+	for _, r := range *m.Referrers() {
+		switch r := r.(type) {
+		case *ssa.Lookup:
+			if r.X != ssa.Value(m) {
+				return false
+			}
+		case *ssa.MapUpdate:
+			if r.Map != ssa.Value(m) || r.Key == ssa.Value(m) || r.Value == ssa.Value(m) {
+				return false
+			}
+			updates = append(updates, r)
+		case *ssa.DebugRef:
+		default:
+			return false
+		}
+	}
+	if len(updates) != 1 {
+		return false
+	}
+	u := updates[0]
+	// value stored: len(A) - 1
+	bo, ok := u.Value.(*ssa.BinOp)
+	if !ok || bo.Op != token.SUB {
+		return false
+	}
+	if k, isC := intConst(bo.Y); !isC || k != 1 {
+		return false
+	}
+	lc, ok := bo.X.(*ssa.Call)
+	if !ok {
+		return false
+	}
+	if bi, isB := lc.Call.Value.(*ssa.Builtin); !isB || bi.Name() != "len" {
+		return false
+	}
+	app, ok := lc.Call.Args[0].(*ssa.Call)
+	if !ok {
+		return false
+	}
+	if bi, isB := app.Call.Value.(*ssa.Builtin); !isB || bi.Name() != "append" || len(app.Call.Args) != 2 {
+		return false
+	}
+	// appended part has a positive constant length
+	if sl, isS := app.Call.Args[1].(*ssa.Slice); isS && sl.Low == nil && sl.High == nil {
+		pt, isP := sl.X.Type().Underlying().(*types.Pointer)
+		if !isP {
+			return false
+		}
+		if at, isA := pt.Elem().Underlying().(*types.Array); !isA || at.Len() < 1 {
+			return false
+		}
+	} else {
+		return false
+	}
+	// family of the indexed slice
+	fam := map[ssa.Value]bool{}
+	var init ssa.Value
+	var walk func(v ssa.Value) bool
+	walk = func(v ssa.Value) bool {
+		if fam[v] {
+			return true
+		}
+		switch t := v.(type) {
+		case *ssa.Phi:
+			fam[v] = true
+			for _, e := range t.Edges {
+				if !walk(e) {
+					return false
+				}
+			}
+			return true
+		case *ssa.Call:
+			if t != app {
+				return false
+			}
+			fam[v] = true
+			return walk(t.Call.Args[0])
+		case *ssa.Slice, *ssa.MakeSlice, *ssa.Const:
+			if init != nil && init != v {
+				return false
+			}
+			init = v
+			fam[v] = true
+			return true
+		}
+		return false
+	}
+	if !walk(x) || !fam[app] || init == nil {
+		return false
+	}
+	if in, isI := init.(ssa.Instruction); isI {
+		if in.Block() != m.Block() {
+			return false
+		}
+	} else if m.Block() != m.Parent().Blocks[0] {
+		return false // constant nil slice: the map must be created once, in the entry block
+	}
+	// blocks reachable from the update within the iteration (not through the block of the loop-head phi)
+	var heads []*ssa.BasicBlock
+	for v := range fam {
+		if phi, isP := v.(*ssa.Phi); isP {
+			for _, e := range phi.Edges {
+				if e == init {
+					heads = append(heads, phi.Block())
+				}
+			}
+		}
+	}
+	isHead := func(b *ssa.BasicBlock) bool {
+		for _, h := range heads {
+			if h == b {
+				return true
+			}
+		}
+		return false
+	}
+	reach := map[*ssa.BasicBlock]bool{}
+	var dfs func(b *ssa.BasicBlock)
+	dfs = func(b *ssa.BasicBlock) {
+		for _, s := range b.Succs {
+			if reach[s] || isHead(s) {
+				continue
+			}
+			reach[s] = true
+			dfs(s)
+		}
+	}
+	ub := u.Block()
+	dfs(ub)
+	if reach[at] || at == ub {
+		return false
+	}
+	for v := range fam {
+		phi, isP := v.(*ssa.Phi)
+		if !isP {
+			continue
+		}
+		for i, e := range phi.Edges {
+			p := phi.Block().Preds[i]
+			if p != ub && !reach[p] {
+				continue
+			}
+			if e == ssa.Value(app) {
+				continue
+			}
+			if ep, isPhi := e.(*ssa.Phi); isPhi && fam[e] && reach[ep.Block()] {
+				continue
+			}
+			return false
+		}
+	}
+	return true
 }
